@@ -21,6 +21,7 @@ class UnitResult:
         self.error = None
         self.src_hash = None
         self.instance = None
+        self.dead_ends = []     # (path, source line) where every alternative was unsatisfiable: the path was cut by an assumption
 
 
 def short(qn):
@@ -65,6 +66,7 @@ def run_unit(eng, qualname, timeout_ms=10000, instance=None, discharge=True, cro
     work = [[]]
     obls = []
     npaths = 0
+    eng.stats['dead_ends'] = []
     try:
         while work:
             prefix = work.pop()
@@ -89,6 +91,7 @@ def run_unit(eng, qualname, timeout_ms=10000, instance=None, discharge=True, cro
     except Exception as e:   # engine failure: checker error, never a verdict
         res.error = '%s: %s\n%s' % (type(e).__name__, e, traceback.format_exc())
     res.paths = npaths
+    res.dead_ends = list(eng.stats.get('dead_ends', []))
     if discharge and res.error is None:
         inc = solve.Incremental(eng, timeout_ms) if not cross_check else None
         for o in obls:
